@@ -48,6 +48,7 @@ type frameObs struct {
 	Frame  string `json:"frame"`
 	Class  string `json:"class"`
 	VM     bool   `json:"vm"`     // the compiled filter accepts the frame
+	Cap    int    `json:"cap"`    // number of bytes the kernel hands over (the program's accept value, at most the frame)
 	Record bool   `json:"record"` // ... and ProcessPacketData emits a record
 	N      int    `json:"n"`
 	Err    string `json:"err,omitempty"`
@@ -75,6 +76,7 @@ type caseOut struct {
 	Ports   [][2]int   `json:"ports"`
 	Text    string     `json:"text"`
 	Snap    int        `json:"snap"`
+	Ring    int        `json:"ring"` // 0 fresh buffers; n > 0: accepted frames are delivered through a ring of n reused slots
 	CompErr string     `json:"comperr,omitempty"`
 	Frames  []frameObs `json:"frames"`
 }
@@ -143,6 +145,8 @@ type runner struct {
 	p     packet.Processor
 	rc    scan.ResultChan
 	nmark int
+	ring  [][]byte
+	pos   int
 }
 
 func (rn *runner) feed(f []byte, class string) frameObs {
@@ -156,7 +160,21 @@ func (rn *runner) feed(f []byte, class string) frameObs {
 	if !o.VM {
 		return o
 	}
-	data := fr.Exact(f)
+	// the kernel copies at most the program's accept value (the snapshot length compiled into the
+	// filter) of an accepted frame into the ring
+	o.Cap = len(f)
+	if n < o.Cap {
+		o.Cap = n
+	}
+	var data []byte
+	if len(rn.ring) == 0 {
+		data = fr.Exact(f[:o.Cap])
+	} else {
+		slot := rn.ring[rn.pos%len(rn.ring)]
+		rn.pos++
+		k := copy(slot, f[:o.Cap])
+		data = slot[:k:k]
+	}
 	func() {
 		defer func() {
 			if r := recover(); r != nil {
@@ -210,9 +228,9 @@ func compile(raw bool, snap int, text string) (*bpf.VM, error) {
 	return bpf.NewVM(prog)
 }
 
-func runCase(id int, wi int, w wiring, vpn bool, subnet string, ports [][2]int, frames [][]byte, classes []string) caseOut {
+func runCase(id int, wi int, w wiring, vpn bool, ring int, subnet string, ports [][2]int, frames [][]byte, classes []string) caseOut {
 	c := caseOut{ID: id, Cmd: w.Cmd, W: wi, VPN: vpn, RawSrc: w.VPNSource && vpn, RawMeth: w.VPNMethod && vpn,
-		Filter: w.Filter, Subnet: subnet, Ports: ports}
+		Filter: w.Filter, Subnet: subnet, Ports: ports, Ring: ring}
 	if c.Ports == nil {
 		c.Ports = [][2]int{}
 	}
@@ -232,6 +250,9 @@ func runCase(id int, wi int, w wiring, vpn bool, subnet string, ports [][2]int, 
 	defer cancel()
 	rc := scan.NewResultChan(ctx, 64)
 	rn := &runner{vm: vm, p: newProcessor(w, c.RawMeth, rc), rc: rc}
+	for i := 0; i < ring; i++ {
+		rn.ring = append(rn.ring, make([]byte, 4096))
+	}
 	for i, f := range frames {
 		c.Frames = append(c.Frames, rn.feed(f, classes[i]))
 	}
@@ -241,6 +262,7 @@ func runCase(id int, wi int, w wiring, vpn bool, subnet string, ports [][2]int, 
 type replayIn struct {
 	W      int      `json:"w"`
 	VPN    bool     `json:"vpn"`
+	Ring   int      `json:"ring"`
 	Subnet string   `json:"subnet"`
 	Ports  [][2]int `json:"ports"`
 	Frames []string `json:"frames"`
@@ -295,7 +317,7 @@ func main() {
 				fs = append(fs, b)
 				cl = append(cl, "replay")
 			}
-			w.Put(runCase(i, in.W, ws[in.W], in.VPN, in.Subnet, in.Ports, fs, cl))
+			w.Put(runCase(i, in.W, ws[in.W], in.VPN, in.Ring, in.Subnet, in.Ports, fs, cl))
 		}
 		return
 	}
@@ -307,6 +329,6 @@ func main() {
 		g := newGen(r, wr, wr.VPNSource && vpn)
 		subnet, ports := g.randomRange(i)
 		frames, classes := g.frames(*per)
-		w.Put(runCase(i, wi, wr, vpn, subnet, ports, frames, classes))
+		w.Put(runCase(i, wi, wr, vpn, []int{0, 0, 1, 1, 2, 3}[r.Intn(6)], subnet, ports, frames, classes))
 	}
 }
